@@ -29,6 +29,7 @@ type SliceIter<'a> = BitIter<std::iter::Copied<std::slice::Iter<'a, u8>>>;
 fn run(ctx: &Ctx, out: &mut Out) {
     leg_nat(ctx, out);
     leg_strings(ctx, out);
+    leg_chains(ctx, out);
     leg_writer(ctx, out);
     leg_reader(ctx, out);
     leg_window(ctx, out);
@@ -199,6 +200,106 @@ fn leg_strings(ctx: &Ctx, out: &mut Out) {
             }
         }
         base += chunk;
+    }
+}
+
+/// Strings generated from the *recursion structure* of the code rather than from raw bytes: k leading ones, a zero,
+/// then one mantissa per level, where the number read at level i is the mantissa width of level i+1. Levels whose
+/// width is <= 5 take every mantissa, wider ones a corner set (small values, all ones, every 2^j and its neighbours);
+/// once a width is >= 64 (the reference rejects) a filler follows. Every chain of widths 1 -> {2,3} -> 4..15 ->
+/// 16..65535 -> ... is covered, in particular intermediate lengths of 32 and more with any low bits.
+fn chain_strings() -> Vec<Vec<bool>> {
+    fn mantissas(w: u32) -> Vec<u128> {
+        if w <= 5 {
+            return (0..(1u128 << w)).collect();
+        }
+        let top = 1u128 << w;
+        let mut v: Vec<u128> = (0..=33u128).filter(|x| *x < top).collect();
+        v.push(top - 1);
+        v.push(top - 2);
+        for j in 0..w {
+            for d in [-1i128, 0, 1] {
+                let x = (1i128 << j) + d;
+                if x >= 0 && (x as u128) < top {
+                    v.push(x as u128);
+                }
+            }
+        }
+        v.sort();
+        v.dedup();
+        v
+    }
+    fn fillers() -> Vec<Vec<bool>> {
+        let n = 96;
+        vec![
+            vec![false; n],
+            vec![true; n],
+            (0..n).map(|i| i % 2 == 1).collect(),
+            (0..n).map(|i| i % 3 == 1).collect(),
+        ]
+    }
+    fn go(level: usize, k: usize, width: u128, bits: &mut Vec<bool>, out: &mut Vec<Vec<bool>>) {
+        if level > k {
+            out.push(bits.clone());
+            return;
+        }
+        if width >= 64 {
+            for f in fillers() {
+                let mut b = bits.clone();
+                b.extend(f);
+                out.push(b);
+            }
+            return;
+        }
+        let w = width as u32;
+        for m in mantissas(w) {
+            let keep = bits.len();
+            for i in (0..w).rev() {
+                bits.push((m >> i) & 1 == 1);
+            }
+            go(level + 1, k, (1u128 << w) + m, bits, out);
+            bits.truncate(keep);
+        }
+    }
+    let mut out = vec![];
+    for k in 0..=7usize {
+        let mut bits = vec![true; k];
+        bits.push(false);
+        go(1, k, 1, &mut bits, &mut out);
+    }
+    out
+}
+
+fn leg_chains(ctx: &Ctx, out: &mut Out) {
+    let leg = "chains";
+    let all = chain_strings();
+    out.count("chain-strings", all.len() as u64);
+    for chunk in all.chunks(512) {
+        if !ctx.mine() {
+            continue;
+        }
+        for bits in chunk {
+        for pad in [false, true] {
+            let mut b = bits.clone();
+            while b.len() % 8 != 0 {
+                b.push(pad);
+            }
+            // a follower byte, so that a reader that consumes too much still finds bits
+            b.extend(std::iter::repeat(pad).take(8));
+            let bytes = bits_to_bytes(&b);
+            if !ctx.begin(leg, &|| format!("bytes={}", hex(&bytes))) {
+                continue;
+            }
+            out.evaluations += 1;
+            let r = guard(|| check_string(&bytes, out));
+            match r {
+                Ok(None) => out.sample(leg, || (format!("bytes={}", hex(&bytes)), format!("read_natural agrees with reference: {:?}", ref_decode_natural(&bytes_to_bits(&bytes), 0)))),
+                Ok(Some((class, d))) => out.violation(&class, leg, format!("bytes={}", hex(&bytes)), d),
+                Err(p) => out.violation(&panic_class(&p), leg, format!("bytes={}", hex(&bytes)), p),
+            }
+            ctx.end();
+        }
+        }
     }
 }
 
